@@ -598,7 +598,11 @@ impl<F: Read + Seek> CompoundFile<F> {
         {
             fat.pop();
         }
-        while fat.len() < num_sectors as usize {
+        // Sectors of the file that no FAT sector covers cannot be allocated
+        // (there is nowhere to record their FAT entry), so pad the cached FAT
+        // only as far as the FAT sectors listed in the DIFAT reach.
+        let max_fat_len = difat.len() * (sector_len / size_of::<u32>());
+        while fat.len() < (num_sectors as usize).min(max_fat_len) {
             fat.push(consts::FREE_SECTOR);
         }
 
